@@ -76,6 +76,20 @@ CLAIMED = {
     note="Trusted: collision resistance of SHAKE256 / SHA-2 / SHAKE128 (a different M' gives a different mu), hash model (update absorbs exactly its argument), abstract interpreter soundness. That verification then fails is the hash argument, not analysed.",
     technique="abstract interpretation with symbolic hash absorb lists (value numbering of absorbed items) compared against the FIPS 204 layout",
     engine="driver-ai"),
+ "C08": dict(
+    category="other",
+    text="Clauses decided statically. R1: HintBitUnpack run on 78 (x3 sets) abstract input classes generated from (k, omega) - count above omega, count below the running index (every polynomial, two prefix shapes and the boundary member), non-increasing / repeated positions, non-zero unused bytes, each at first/middle/last position - every member of an error class is definitely rejected, every member of a canonical class definitely accepted. R2: encoder and decoder of sig/pk/sk use identical byte ranges that tile [0, LEN) and equal the FIPS 204 layout. R3: BitUnpack accepts exactly [-a, b] for every (a, b) in use (total when a+b+1 is a power of two). Not decided: re-encode identity for every accepted byte string and the bit-level bijection.",
+    design_ref="DESIGN.md §4 C08",
+    note="The class family is a cover of the malformation taxonomy, not a partition of all byte strings (exhaustive: false in evidence). Trusted: abstract interpreter soundness; class verdicts transcribed from Alg. 21.",
+    technique="abstract interpretation on abstract input classes (definite accept/reject) + slice-range layout probes",
+    engine="driver-ai"),
+ "C02": dict(
+    category="other",
+    text="Rejection side and decision structure. R1: every FIPS-rejected hint class embedded in an otherwise arbitrary signature is definitely rejected by verify (representatives through hash_verify and _internal_verify). R2: signatures with one coefficient field encoding |z| in [gamma1-beta, gamma1] (both signs, exactly the bound, first/last coefficient and polynomial) are definitely rejected. R3: the decision compares all lambda/4 bytes of c-tilde with the first lambda/4 bytes of H(mu || w1Encode(w1')), UseHint is applied to all 256k coefficients, SampleInBall absorbs the whole c-tilde. R4: no overflow/self-check obligation on any verify path for arbitrary (pk, sig) and all three key provenances. R5: contexts > 255 rejected. The acceptance side is not decided (needs hash values).",
+    design_ref="DESIGN.md §4 C02",
+    note="Only the reject direction and structural clauses; 'returns true iff FIPS returns true' is not established. Assumed obligations of rules/assume.json apply to R4.",
+    technique="abstract interpretation on abstract signature classes through the verify entry points + hash/compare probes",
+    engine="driver-ai"),
 }
 NA_REASON = "check not built yet in this round (static-analysis engine under construction); see DESIGN.md §8 build order"
 
@@ -106,7 +120,7 @@ man = {
  "engines": [
    {"name": "cfg-matrix", "path": "checks/c17.py", "serves_properties": ["C17"], "kind_free_text": "feature-configuration matrix: rustc lints + MIR fingerprints"},
    {"name": "driver-facts", "path": "driver/src/facts.rs", "serves_properties": ["C16", "C17"], "kind_free_text": "type/layout/drop-glue/call-graph facts"},
-   {"name": "driver-ai", "path": "driver/src/ai/", "serves_properties": ["C06", "C07", "C10", "C12", "C13", "C14", "C15", "C18"], "kind_free_text": "abstract interpreter over monomorphic MIR"},
+   {"name": "driver-ai", "path": "driver/src/ai/", "serves_properties": ["C02", "C06", "C07", "C08", "C10", "C12", "C13", "C14", "C15", "C18"], "kind_free_text": "abstract interpreter over monomorphic MIR"},
    {"name": "driver", "path": "driver/", "serves_properties": sorted(CLAIMED), "kind_free_text": "rustc_private driver over type-checked monomorphic MIR (facts, call graph, abstract interpretation)"},
  ],
  "checks": checks,
